@@ -789,26 +789,22 @@ monitor:
 
 // ---------------------------------------------------------------------------
 
-// c20Rare is true in about pct% of the draws. rapid favours small integers, so
-// the rare outcome is put at the top of the range.
-func c20Rare(g kit.G, pct int, label string) bool { return g.Int(0, 99, label) >= 100-pct }
-
 func genC20(rt *rapid.T) c20Case {
 	g := kit.G{T: rt}
 	c := c20Case{Kind: "multi"}
 	c.Cap = g.Int(1, 4, "cap")
-	if c20Rare(g, 5, "cap8") {
+	if g.Bool(5, "cap8") {
 		c.Cap = 8
 	}
 	// VERIF_C20_STRESS=off (sensitivity experiments): deterministic part only
-	if c20Rare(g, 2, "stress") && os.Getenv("VERIF_C20_STRESS") != "off" {
+	if g.Bool(2, "stress") && os.Getenv("VERIF_C20_STRESS") != "off" {
 		c.Stress = true
 		c.BatchDiv = kit.Pick(g, []int{0, 1, 2}, "batchdiv")
 		c.Workers = g.Int(2, 3*c.Cap+2, "workers")
 		c.Plan = rapid.SliceOfN(rapid.Uint8(), 20, 120).Draw(rt, "plan")
 		return c
 	}
-	if c20Rare(g, 8, "single") {
+	if g.Bool(8, "single") {
 		c.Kind = "single"
 	} else {
 		c.BatchDiv = kit.Pick(g, []int{0, 1, 2, 3}, "batchdiv")
@@ -820,7 +816,7 @@ func genC20(rt *rapid.T) c20Case {
 		"start", "yieldx", "yield", "cancel", "start", "yieldp", "release", "cancelw", "startdone", "rerelease",
 	}
 	op := rapid.Custom(func(t *rapid.T) c20Op {
-		return c20Op{K: kinds[rapid.IntRange(0, len(kinds)-1).Draw(t, "op")], S: rapid.IntRange(0, 11).Draw(t, "sel")}
+		return c20Op{K: kit.Pick(kit.G{T: t}, kinds, "op"), S: rapid.IntRange(0, 11).Draw(t, "sel")}
 	})
 	// rapid's slice lengths average min+max(min,5): vary the minimum to get long schedules too
 	lo := kit.Pick(g, []int{4, 10, 18}, "minops")
